@@ -107,9 +107,14 @@ def check_comparators(rep, prog):
             for which in ('lt', 'gt'):
                 vals = set()
                 later = fields[i + 1:]
+                all_atoms = set()
+                for (pc, val) in outs:
+                    all_atoms |= set(ex.f_atoms(pc) + ex.f_atoms(val))
+                opaque_atoms = sorted([a_ for a_ in all_atoms if not (isinstance(a_, tuple) and a_[0] in ('lt', 'eq', 'gt'))], key=repr)[:8]
                 for combo in itertools.product(('lt', 'eq', 'gt'), repeat=min(len(later), 3)):
-                    for opaque_v in (False, True):
-                        envv = {}
+                    for opaque_vals in itertools.product((False, True), repeat=len(opaque_atoms)):
+                        opaque_v = False
+                        envv = dict(zip(opaque_atoms, opaque_vals))
                         for e in fields[:i]:
                             envv.update({('lt', e): False, ('eq', e): True, ('gt', e): False})
                         envv.update({('lt', f): which == 'lt', ('eq', f): False, ('gt', f): which == 'gt'})
